@@ -391,7 +391,8 @@ def run(ctx):
         g = T(rng)
         comps = [g.comp() for _ in range(rng.choice([1, 2, 2, 3, 4, 5]))]
         texts = [layout(rng, comps, canonical=True)] + [layout(rng, comps) for _ in range(2)]
-        outers = ["", rng.choice(["", "~ a plain description, nothing else ~ ", "~ author: me note: layout test ~\n"]), rng.choice(["", "~x~"])]
+        outers = ["", rng.choice(["", "~ a plain description, nothing else ~ ", "~ author: me note: layout test ~\n", "~ flags items that cost more than $5 ~ "]),
+                  rng.choice(["", "~x~", "~ see $.variables.n and $other.csv ~\n"])]      # an outer comment may mention a price, a reference, a file
         jobs.append((comps, texts, outers, f"c17_{i}.csv"))
     res = pmap(ctx, impl, jobs, chunksize=8)
     lits = []
